@@ -40,6 +40,13 @@ static int check_arm_crc32(void) {
 static uint32_t crc32_tables[8][256];
 static volatile int crc32_tables_initialized = 0;
 
+#ifdef CARQUET_VERIF
+/* Verification hook (off by default): make the lookup tables cold again. */
+void carquet_verif_reset_crc32(void) {
+    crc32_tables_initialized = 0;
+}
+#endif /* CARQUET_VERIF */
+
 static void crc32_init_tables(void) {
     if (crc32_tables_initialized) return;
 
